@@ -39,6 +39,9 @@ def mod (a b : Int) : Option Int := if b = 0 then none else some (Int.tmod a b)
 /-- `int64(x)` / `time.Duration(x)` of a `uint32` value: value preserving. -/
 def ofU32 (x : Int) : Int := x
 
+/-- `uint32(x)` of an int64 value: keeps the low 32 bits. -/
+def toU32 (x : Int) : Int := x % 2 ^ 32
+
 /-- Proposed-repair primitive: Go helper `mulDivTrunc128(a, b, c)` = `a*b/c` truncated toward zero with a
 128-bit intermediate product, result converted to int64 (panics when `c = 0`). -/
 def mulDivTrunc128 (a b c : Int) : Option Int :=
